@@ -355,6 +355,9 @@ class Server:
         self.sasl = list(sasl) if sasl is not None else None
         self.post_tls_sasl = post_tls_caps
         self.injected_sasl = ("LOGIN",)
+        # RFC 5804 ABNF literals are case-insensitive: a server may write the marker of the
+        # active script as ACTIVE, active, Active
+        self.active_marker = b"ACTIVE"
         self.users = users or {}
         self.scripts = dict(scripts or {})  # name(bytes) -> content(bytes), ordered
         self.active = active
@@ -624,7 +627,7 @@ class Server:
         for name in self.scripts:
             self.emit(enc_string(name, self.how()))
             if name == self.active:
-                self.emit(b" ACTIVE")
+                self.emit(b" " + self.active_marker)
             self.emit(CRLF)
         self.final("OK", None, b"Listscripts completed.")
 
